@@ -36,7 +36,8 @@ PARTIAL = [
 LEVEL_TEXT = ("Proof about an executable Lean model of the serialiser/deserialiser, the write buffer with its growth loop as "
               "written, and the value<->column mapping with the schema's CHECK constraints (re-extracted from the sources on every "
               "run): round trip for every value at any depth and size, termination and in-bounds writes of the buffer, column round "
-              "trip. Tied to the C by differential execution: family ser (real serialise -> free -> deserialise, direct calls of "
+              "trip, numbers from every number-producing API function re-parse to their fields, and — composed with the store model "
+              "of C04 — read-after-write for set_value, add_item, add_packet and iterator update. Tied to the C by differential execution: family ser (real serialise -> free -> deserialise, direct calls of "
               "cif_buf_write) and family storeval (five storing routes x three read-back paths through SQLite).")
 LEVEL_NOTE = ("C07_numb_in_list is proved at full strength (numbers from parse_numb, init_numb, autoinit_numb, create/init, via group "
               "gB's initNumb_roundtrip). Trusted: word-level buffer "
